@@ -105,7 +105,16 @@ fn banks_of(inv: &Inv, ev: &Ev, rng: &mut Rng) -> Banks {
         // per-packet header metadata and chunk sequence numbers differ from packet to packet: none of it may matter
         banks.extend(event::pad_banks_varied(inv, &ev.pads, cs, rng, None));
     }
-    banks.push(event::trg_bank(ev.ts));
+    // the TRG packet's counters are unrelated to the event: any ordered values, output counter beyond 2^28 included
+    if rng.bool() {
+        banks.push(event::trg_bank(ev.ts));
+    } else {
+        let out = *rng.pick(&[0u32, 1, 0x0FFF_FFFF, 0x1000_0000, 0x1234_5678, 0xFFFF_FFF0]);
+        let mut t = crate::enc::Trg::simple(ev.ts, out);
+        t.pulser = rng.next() as u32;
+        t.udp = rng.next() as u32 >> 1;
+        banks.push(("ATAT".to_string(), t.encode()));
+    }
     // foreign banks that must be recognised and ignored
     if rng.bool() {
         banks.push(("B09A".to_string(), rng.bytes(rng.clone().usize(40))));
@@ -501,6 +510,14 @@ fn run(ctx: &mut Ctx) {
         let mut b = base.clone();
         b.push((rng.pick(&["XXXX", "C09W", "PC09", "atat", "C1900", "CBF1", "SEQ2"]).to_string(), vec![1, 2, 3]));
         inject(ctx, run, "unknown bank name", b, true);
+        // an unknown name next to every family of known names (same first letter(s) as a barrel-veto, wire, pad, TRG,
+        // TRB3, MC-vertex bank), at the front, in the middle and at the end of the event
+        for (k, name) in ["B09G", "B17A", "B15A", "BXXX", "B09", "B090A", "b09A", "B0 A", "C15A", "C09W", "C17A", "PC09", "PC99", "PCAB", "PC0", "ATAU", "ATA", "ATATT", "TRBB", "TRB", "MCVY", "MCV", "XXXX", "", "C", "B", "P", "A"].iter().enumerate() {
+            let mut b = base.clone();
+            let at = [0, b.len() / 2, b.len()][(k + i as usize) % 3];
+            b.insert(at, (name.to_string(), if k % 2 == 0 { vec![] } else { rng.bytes(8) }));
+            inject(ctx, run, "unknown bank name (next to a known family)", b, true);
+        }
         // foreign banks are ignored
         let mut b = base.clone();
         b.push(("B12F".into(), rng.bytes(33)));
